@@ -136,6 +136,11 @@ pub fn corpus(seed: u64) -> Vec<(&'static str, Case)> {
         // a resultset of more than a thousand rows (whatever is done "every N rows" happens here)
         let c = Case::new(vec![Cmd::query(b"long"), Cmd::ping()], vec![Script::Q(rows_prog(1, 1100, false, false, QOp::Finish))]);
         v.push(("1100 rows", c));
+        // replies whose packet count lies at a multiple of 256 (the sequence id is back where the reply
+        // began) and just beside it, left to the destructor, with more commands pipelined behind
+        v.push(("251 rows (255 packets), writer dropped, pipelined, quit", Case::new(vec![Cmd::query(b"q1"), Cmd::query(b"q2"), Cmd::quit()], vec![Script::Q(rows_prog(1, 251, false, false, QOp::DropRow)), Script::Q(rows_prog(1, 2, false, false, QOp::Finish))])));
+        v.push(("252 rows (256 packets), writer dropped, pipelined, quit", Case::new(vec![Cmd::query(b"q1"), Cmd::query(b"q2"), Cmd::quit()], vec![Script::Q(rows_prog(1, 252, false, false, QOp::DropRow)), Script::Q(rows_prog(1, 2, false, false, QOp::Finish))])));
+        v.push(("252 rows (256 packets), finished, ping", Case::new(vec![Cmd::query(b"q1"), Cmd::ping()], vec![Script::Q(rows_prog(1, 252, false, false, QOp::Finish))])));
     }
     {
         // many packets in one response
